@@ -249,15 +249,16 @@ func coqAnchors(t Trace) string {
 }
 
 type sameDesc struct {
-	Doc      string   `json:"doc"`
-	Tags     []string `json:"tags"`
-	Compared string   `json:"compared"`
-	Runs     int      `json:"runs"`
-	Status   string   `json:"status"`
-	Pages    int      `json:"pages"`
-	Events   int      `json:"events"`
-	Diff     string   `json:"first_difference,omitempty"`
-	Input    *Doc     `json:"input,omitempty"` // full document when a run differs (the failing input)
+	Doc      string         `json:"doc"`
+	Tags     []string       `json:"tags"`
+	Compared string         `json:"compared"`
+	Runs     int            `json:"runs"`
+	Status   string         `json:"status"`
+	Pages    int            `json:"pages"`
+	Events   int            `json:"events"`
+	Diff     string         `json:"first_difference,omitempty"`
+	Counts   map[string]int `json:"counts,omitempty"` // rewrite stream: anchors / links / bookmarks of the reference write
+	Input    *Doc           `json:"input,omitempty"`  // full document when a run differs (the failing input)
 }
 
 func sameCase(kind int, what string, d Doc, ref Trace, refD [5]uint64, runs [][5]uint64, diff string) vlib.Case {
@@ -275,7 +276,7 @@ func sameCase(kind int, what string, d Doc, ref Trace, refD [5]uint64, runs [][5
 		dd := d
 		desc.Input = &dd
 	}
-	kinds := []string{"repeat", "fresh-process", "concurrent", "history"}
+	kinds := []string{"repeat", "fresh-process", "concurrent", "history", "rewrite"}
 	return vlib.Case{Kind: kinds[kind], Coq: fmt.Sprintf("CSame %d %s %s", kind, coqDigest(refD), vlib.List(rs)),
 		Desc: desc, Tags: d.Tags, Nontrivial: ref.Status == "ok" && len(ref.Events) > 50, Key: fmt.Sprintf("%s/%s", kinds[kind], d.Name)}
 }
@@ -492,7 +493,7 @@ func main() {
 	n := flag.Int("n", 60, "number of documents")
 	child := flag.String("child", "", "(internal) job file")
 	childOut := flag.String("childout", "", "(internal) result file")
-	mode := flag.String("mode", "full", "full | race (concurrent batches only, for the -race binary) | one (render document -doc once, print status and trace size) | dump (print the documents as JSON)")
+	mode := flag.String("mode", "full", "full | rewrite (only the rewrite-same-doc stream) | race (concurrent batches only, for the -race binary) | one (render document -doc once, print status and trace size) | dump (print the documents as JSON)")
 	docName := flag.String("doc", "", "one mode: document name")
 	rounds := flag.Int("rounds", 1, "race mode: how many times every batch is rendered")
 	flag.Parse()
@@ -526,6 +527,36 @@ func main() {
 				}
 			}
 		}
+		return
+	}
+	if *mode == "rewrite" { // only the rewrite-same-doc stream (development / replay)
+		if *docName != "" { // print the neighbourhood of the first difference between writes #1 and #2
+			for _, d := range rewriteDocs(docs, 6+*n/8) {
+				if d.Name == *docName {
+					res := rewriteTraces(d, 2)
+					fmt.Println(firstDiff(res.W[0], res.W[1]))
+					for i := range res.W[0].Events {
+						if i >= len(res.W[1].Events) || res.W[0].Events[i] != res.W[1].Events[i] {
+							for j := i - 6; j < i+12; j++ {
+								a, b := "", ""
+								if j >= 0 && j < len(res.W[0].Events) {
+									a = res.W[0].Events[j]
+								}
+								if j >= 0 && j < len(res.W[1].Events) {
+									b = res.W[1].Events[j]
+								}
+								fmt.Printf("%d\t%s\n\t%s\n", j, a, b)
+							}
+							break
+						}
+					}
+				}
+			}
+			return
+		}
+		w := vlib.NewWriter(*out)
+		rewriteStream(w, docs, 6+*n/8)
+		w.Close()
 		return
 	}
 	if *mode == "race" {
@@ -744,6 +775,11 @@ func main() {
 				Tags: d.Tags, Nontrivial: maxPer > 1, Key: "anchors/" + d.Name})
 		}
 	}
+
+	// --- ONE document.Document written several times (state kept on the Document)
+	t0 = time.Now()
+	rewriteStream(w, docs, 6+*n/8)
+	fmt.Printf("rewrite-same-doc stream: %v\n", time.Since(t0))
 
 	race.finish(w)
 
